@@ -152,7 +152,8 @@ Section BI.
     2:{ unfold apply_one. rewrite EL. exact B0. }
     destruct (apply_one_spec sc pl g s p l EL (HL l eq_refl)) as [SA [a [u [gen [lt [_ [STR [SF SO]]]]]]]]. cbv zeta in *.
     apply (BInv_frame s _ (IEv (EApply g (p_id p) (ast_of a)) :: lt)); [exact STR| |exact SA| | |exact B0].
-    - constructor; [intros g0 i0; discriminate|eapply Forall_noskip_snap; exact SF].
+    - constructor; [intros g0 i0; discriminate|].
+      eapply Forall_snap2_shape; [|exact SF]. intros c it. apply noskip_snap.
     - destruct SO as [[_ C]|[[_ [_ C]]|[_ [_ [[_ [_ [C _]]] _]]]]]; [rewrite C; auto|rewrite C; auto|exact C].
     - intros i NA. destruct SO as [[_ C]|[[_ [_ C]]|[_ [_ [[_ [C _]] _]]]]]; [rewrite C; auto|rewrite C; auto|].
       apply C. intros ->. exact (NA Hin).
